@@ -434,9 +434,78 @@ Proof.
   rewrite src_caches_cleared_on_commit, src_caches_cleared_on_rollback. destruct committed; reflexivity.
 Qed.
 
+(* the schema section lists only what the declared rules let the user view, on both sides of a relationship *)
+Theorem schema_now_spec : forall a,
+  schema_attr rev_loop_iterates_reverse_rules obj_exclusion_tests_entity missing_reverse_rules_returns_false
+              attr_ent attr_rev attr_hidden obj_ent rules ugroups uroles olabels a = true ->
+  (spec_now VIEW (TEntity (attr_ent a)) \/ spec_now EDIT (TEntity (attr_ent a)))
+  /\ (spec_now VIEW (TAttr a) \/ spec_now EDIT (TAttr a))
+  /\ (forall rv, attr_rev a = Some rv ->
+        (spec_now VIEW (TEntity (attr_ent rv)) \/ spec_now EDIT (TEntity (attr_ent rv))) /\ (spec_now VIEW (TAttr rv) \/ spec_now EDIT (TAttr rv))).
+Proof.
+  intros a H. unfold C34Perm.schema_attr in H. apply andb_true_iff in H as [H Hr]. apply andb_true_iff in H as [He Ha].
+  split; [apply can_view_now_spec; exact He|]. split; [apply can_view_now_spec; exact Ha|].
+  intros rv Hrv. rewrite Hrv in Hr. apply andb_true_iff in Hr as [H1 H2]. split; apply can_view_now_spec; assumption.
+Qed.
+
+Theorem schema_entity_now_spec : forall e,
+  schema_entity rev_loop_iterates_reverse_rules obj_exclusion_tests_entity missing_reverse_rules_returns_false
+                attr_ent attr_rev attr_hidden obj_ent rules ugroups uroles olabels e = true
+  <-> spec_now VIEW (TEntity e) \/ spec_now EDIT (TEntity e).
+Proof. intros e. unfold C34Perm.schema_entity. apply can_view_now_spec. Qed.
+
 Theorem to_json_include_now_spec : forall related o l,
   to_json_include rev_loop_iterates_reverse_rules obj_exclusion_tests_entity missing_reverse_rules_returns_false
                   attr_ent attr_rev attr_hidden obj_ent rules ugroups uroles olabels related o = Some l ->
   l = o :: related o /\ forall o', In o' l -> spec_now VIEW (TObj o') \/ spec_now EDIT (TObj o').
 Proof. intros related o l H. exact (to_json_now_spec _ _ H). Qed.
 End Now.
+
+(* ------------------------------------------------------------------ declarations and inheritance *)
+Lemma mem_true_iff : forall x l, mem x l = true <-> In x l.
+Proof.
+  intros x l; unfold mem. rewrite existsb_exists. split.
+  - intros [y [Hin E]]. apply Nat.eqb_eq in E. subst; exact Hin.
+  - intros H. exists x. split; [exact H|apply Nat.eqb_refl].
+Qed.
+
+(* a rule declared for a base entity is in the rule set of every subclass of it, for every permission it names *)
+Theorem declared_rule_reaches_subclasses : forall subs ds d base sub p,
+  In d ds -> In base (d_ctx d) -> In sub (subs base) -> In p (d_perms d) ->
+  In (expand subs d) (rules_of_decls subs ds base p) /\ In (expand subs d) (rules_of_decls subs ds sub p).
+Proof.
+  intros subs ds d base sub p Hd Hb Hs Hp. unfold rules_of_decls.
+  split; apply in_map; apply filter_In; (split; [exact Hd|]); apply andb_true_iff; (split; [|apply mem_true_iff; exact Hp]);
+    apply mem_true_iff; unfold close_subs; apply in_or_app.
+  - left; exact Hb.
+  - right. apply in_flat_map. exists base; auto.
+Qed.
+
+(* an entity receives exactly the rules declared for itself or for one of its ancestors *)
+Theorem rules_of_decls_exact : forall subs ds e p r,
+  In r (rules_of_decls subs ds e p) <->
+  exists d, In d ds /\ r = expand subs d /\ In p (d_perms d) /\ (In e (d_ctx d) \/ exists base, In base (d_ctx d) /\ In e (subs base)).
+Proof.
+  intros subs ds e p r. unfold rules_of_decls. rewrite in_map_iff. split.
+  - intros [d [Hr Hf]]. apply filter_In in Hf as [Hd Hc]. apply andb_true_iff in Hc as [Hc Hp].
+    apply mem_true_iff in Hc. apply mem_true_iff in Hp. exists d. repeat split; auto.
+    unfold close_subs in Hc. apply in_app_or in Hc as [H|H]; [left; exact H|right]. apply in_flat_map in H. exact H.
+  - intros [d [Hd [Hr [Hp Hc]]]]. exists d. split; [auto|]. apply filter_In. split; [exact Hd|].
+    apply andb_true_iff. split; [|apply mem_true_iff; exact Hp]. apply mem_true_iff. unfold close_subs. apply in_or_app.
+    destruct Hc as [H|[base [Hb Hs]]]; [left; exact H|right; apply in_flat_map; exists base; auto].
+Qed.
+
+(* exclude(Entity) excludes the entity's subclasses too *)
+Theorem exclusion_reaches_subclasses : forall subs d base sub,
+  In base (r_exclE (d_rule d)) -> In sub (subs base) ->
+  mem base (r_exclE (expand subs d)) = true /\ mem sub (r_exclE (expand subs d)) = true.
+Proof.
+  intros subs d base sub Hb Hs. unfold expand; cbn. split; apply mem_true_iff; unfold close_subs; apply in_or_app.
+  - left; exact Hb.
+  - right. apply in_flat_map. exists base; auto.
+Qed.
+
+(* a hidden attribute is never granted, whatever the rules say *)
+Theorem hidden_attr_never_granted : forall f_rev f_miss attr_ent attr_rev attr_hidden rules ugroups a p,
+  attr_hidden a = true -> has_perm_attr f_rev f_miss attr_ent attr_rev attr_hidden rules ugroups a p = false.
+Proof. intros. unfold C34Perm.has_perm_attr. rewrite H. reflexivity. Qed.
